@@ -21,6 +21,7 @@ CHECKS = {
     "C06": ("c06", False),
     "C05": ("c05", False),
     "C19": ("c19", False),
+    "C14": ("c14", False),
 }
 
 
